@@ -20,8 +20,16 @@
      * encode of a decoded value that the description makes encodable does not panic.
    Detailed level (PrintT "DRIFT", the step is still taken): outcome, error class,
    warnings, message and re-encoding equal those of Parse for *every* input, including
-   truncations, mutations and random bytes. Inputs containing an integer with non-zero
-   padding are not predicted (doc/int.md leaves the value open). *)
+   truncations, mutations and random bytes (an integer with non-zero padding is read the way
+   VarInt!DecodeAt.vimpl says, with the warning NonZeroIntPadding). Entry points with a leading
+   "d" read behind Unpacker::new_from_demo (zero padding up to three bytes is not excess data).
+
+     {k: "benc", n, src, sec, mi, vals, r: ok|panic|cap|unrep, bytes, msg}
+   `encode` of message / object mi of section sec built through the public struct fields from the
+   value tuple vals. Property level: a tuple that satisfies the assertions of encode (GameNet!BuildExp;
+   it is then the value the bytes BuildExp.bytes decode to) is encoded to exactly those bytes.
+   Detailed level: a tuple the field types cannot hold is not constructible (unrep), a tuple that
+   violates an assertion makes encode panic. *)
 EXTENDS GameNet
 
 Rec == ndJsonDeserialize(IOEnv.TRACE)
@@ -30,7 +38,7 @@ SpecCanon(ev, x) == x.r = "ok" /\ x.w = {} /\ x.enc /\ x.re = ev.data
 SpecReject(x)    == x.r = "err" /\ x.e \in {"range", "cc", "intstr", "unknown_id"}
 
 PropOK(ev, x) ==
-  /\ ev.r \in {"ok", "err"}
+  /\ ev.r \in {"ok", "err"} \/ (ev.r = "precond" /\ x.r = "precond")   \* documented precondition of new_from_demo
   /\ SpecCanon(ev, x) => ev.r = "ok" /\ ev.w = <<>> /\ ev.enc = "ok" /\ ev.re = ev.data /\ ev.idok
   /\ SpecReject(x) => ev.r = "err"
   /\ (x.r = "ok" /\ x.enc /\ ev.r = "ok") => ev.enc # "panic"
@@ -42,13 +50,24 @@ DetailOK(ev, x) ==
                       /\ ev.tname = Title(SecMsgs(x.sec)[x.mi].name)
                       /\ x.enc => ev.enc = "ok" /\ ev.re = x.re
     [] x.r = "err" -> ev.r = "err" /\ ev.e = x.e
-    [] OTHER -> TRUE
+    [] OTHER -> ev.r = x.r
 
 BulkOK(ev) == ev.panic = 0 /\ ev.hang = 0 /\ ev.ok + ev.err = ev.count
+
+BuildProp(ev, e)   == e.ok => ev.r = "ok" /\ ev.bytes = e.bytes
+BuildDetail(ev, e) == /\ (ev.r = "unrep") <=> ~e.rep
+                      /\ (e.rep /\ ~e.ok) => ev.r = "panic"
+AcceptBuild(ev, k) ==
+  LET e == BuildExp(ev.sec, SecMsgs(ev.sec)[ev.mi], ev.vals) IN
+  /\ BuildProp(ev, e)
+  /\ IF BuildDetail(ev, e) THEN TRUE
+     ELSE PrintT(<<"DRIFT", k, ToJson([src |-> ev.src, entry |-> "build " \o ev.sec, ord |-> ev.mi, data |-> ev.vals,
+                   got |-> [r |-> ev.r, bytes |-> ev.bytes, msg |-> ev.msg], spec |-> e])>>)
 
 Accept(ev, k) ==
   /\ ev.n = k
   /\ IF ev.k = "bulk" THEN BulkOK(ev)
+     ELSE IF ev.k = "benc" THEN AcceptBuild(ev, k)
      ELSE LET x == ParseAny(ev.entry, ev.ord, ev.uuid, ev.data) IN
           /\ PropOK(ev, x)
           /\ IF DetailOK(ev, x) THEN TRUE
